@@ -622,14 +622,41 @@ func (s Str) Concrete2() (string, bool) {
 func (m *Machine) sliceOp(fr *frame, ins *ssa.Slice) Value {
 	x := m.get(fr, ins.X)
 	lo, hi, max := -1, -1, -1
+	limit := 0
+	switch xv := x.(type) {
+	case Str:
+		limit = len(xv.B)
+	case Slice:
+		limit = len(xv.A)
+	case *Value:
+		if xv != nil {
+			if a, ok := (*xv).(Array); ok {
+				limit = len(a)
+			}
+		}
+	}
+	bound := func(v ssa.Value, what string) int {
+		t := m.get(fr, v).(*smt.Term)
+		if t.IsConst() {
+			return m.concreteInt(t, what)
+		}
+		// symbolic bound: case split over the admissible values; anything else is out of range
+		for k := 0; k <= limit; k++ {
+			if m.Branch(m.St.Eq(t, m.St.BV(int(t.S), uint64(k)))) {
+				return k
+			}
+		}
+		m.goPanicf("slice bounds out of range (symbolic %s) with capacity %d at %s", what, limit, m.at(ins.Pos()))
+		return 0
+	}
 	if ins.Low != nil {
-		lo = m.concreteInt(m.get(fr, ins.Low), "slice low")
+		lo = bound(ins.Low, "slice low")
 	}
 	if ins.High != nil {
-		hi = m.concreteInt(m.get(fr, ins.High), "slice high")
+		hi = bound(ins.High, "slice high")
 	}
 	if ins.Max != nil {
-		max = m.concreteInt(m.get(fr, ins.Max), "slice max")
+		max = bound(ins.Max, "slice max")
 	}
 	if lo < 0 {
 		lo = 0
